@@ -25,7 +25,7 @@ rows = []
 for f in V.functions_with_contracts():
     c = V.contract_for(f)
     name = V.display_name(f)
-    if c.mode not in ("ring", "group") or c.trusted or not f.get("hasBody"):
+    if c.mode not in ("ring", "group", "lia", "bv") or c.trusted or not f.get("hasBody"):
         continue
     if args and not any(a in name for a in args):
         continue
@@ -34,7 +34,7 @@ for f in V.functions_with_contracts():
         ob = Ob()
         ob.run, ob.part, ob.fn, ob.name = run, pname, name, name + "#selftest@" + pname
         try:
-            res = sampled_replay(repo, ob, trials=120)
+            res = sampled_replay(repo, ob, trials=120, all_modes=True)
         except Exception as e:
             res = {"__error__": "%s: %s" % (type(e).__name__, e)}
         if res is None:
